@@ -11,7 +11,7 @@
    the real analyser (missing definition, array without items), compared with the implementation on every run.
    PARTIAL: that the recursion ends (no Fuel outcome with enough fuel, i.e. no unbounded recursion through references)
    is decided on the implementation only (worker processes observe fatal stack overflow and hangs). *)
-From GS Require Import Base.Str Gen.GenDiffTables Tools.DiffTypes Tools.DiffSpec Tools.DiffModel Tools.DiffModelLemmas Tools.DiffIdentity Tools.DiffTotal Tools.DiffExt Tools.DiffExtLemmas Tools.DiffCycle.
+From GS Require Import Base.Str Gen.GenDiffTables Tools.DiffTypes Tools.DiffSpec Tools.DiffModel Tools.DiffModelLemmas Tools.DiffIdentity Tools.DiffTotal Tools.DiffExt Tools.DiffExtLemmas Tools.DiffCycle Tools.DiffExtTotal.
 
 Theorem C12_total : forall fuel a b, closed_swaggerb a = true -> closed_swaggerb b = true -> analyse fuel a b <> Panic.
 Proof. exact analyse_total. Qed.
@@ -72,6 +72,13 @@ Theorem C12_identity_with_extensions : forall fuel a x ds, wf_swaggerb a = true 
 Proof. exact analyse_all_identity. Qed.
 Print Assumptions C12_identity_with_extensions.
 
+(* ... and never takes a Panic branch on closed documents (array parameters and array schemas carry items) *)
+Theorem C12_total_with_extensions : forall fuel a b xa xb,
+  closed_swaggerb a = true -> closed_swaggerb b = true -> closed_xdoc (sw_defs a) xa = true -> closed_xdoc (sw_defs b) xb = true ->
+  analyse_all fuel a b xa xb <> Panic.
+Proof. exact analyse_all_total. Qed.
+Print Assumptions C12_total_with_extensions.
+
 Definition sample_x : xdoc :=
   {| xd_ext := [(s "x-order", DInt 1)]; xd_info := [(s "x-owner", DStr (s "alpha"))]; xd_contact := Some []; xd_license := None;
      xd_tags := [(s "pets", [(s "x-flags", DArr [DStr (s "a"); DInt 0])])]; xd_secdefs := [(s "key", [(s "x-internal", DBool true)])];
@@ -79,8 +86,9 @@ Definition sample_x : xdoc :=
         xi_ops := [(s "post", {| xo_ext := [(s "x-internal", DBool false)]; xo_resp_ext := [(s "x-flags", DInt 1)]; xo_params := [(b_pet, [])];
                                  xo_resps := [(200%Z, {| xr_headers := [(s "X-Total", [(s "x-order", DInt 0)])];
                                                          xr_body := [(ref_to (s "Pet"), [])] |})] |})] |})] |}.
-Example C12_extensions_nonvacuous : wf_xdoc sample_x = true /\ analyse_all 12 sample_doc sample_doc sample_x sample_x = Ok [].
-Proof. split; vm_compute; reflexivity. Qed.
+Example C12_extensions_nonvacuous : wf_xdoc sample_x = true /\ closed_xdoc (sw_defs sample_doc) sample_x = true /\
+  analyse_all 12 sample_doc sample_doc sample_x sample_x = Ok [].
+Proof. repeat split; vm_compute; reflexivity. Qed.
 
 (* circular references: a reference met under a location key that was already recorded is not followed — for any
    definitions, circular or not — and the key of a location stays the same below its first child node, so that along one
